@@ -159,6 +159,21 @@ impl C09Checker {
                 // merged into a neighbour (s,i,n -> sin; 1 , 234 -> 1,234), or a wrapper without scripts: the text lives on
                 // under another id. Gone altogether = the content the id was on was lost
                 let in_one_token = out_els.iter().any(|o| o.is_token() && carried_text(&o.text()).contains(&words[0]));
+                // merged = the word is a proper part of a longer token (s,i,n -> sin; 1 , 234 -> 1,234). A token with exactly
+                // this text under another id is not a merge: the id was replaced (e.g. by the id of a wrapper that went away)
+                let merged = out_els.iter().any(|o| o.is_token() && {
+                    let t = carried_text(&o.text());
+                    t.contains(&words[0]) && t.chars().count() > words[0].chars().count()
+                });
+                if e.is_token() && in_one_token && !merged {
+                    s.violation_g(
+                        "author-id-replaced",
+                        format!("the author id of a <{}> token is gone although the token is still there (under another id)", e.name),
+                        "author id of a surviving token replaced".into(),
+                        format!("id {:?} on <{}>{}</{}>\ninput: {}\nreturned: {}", id, e.name, e.text(), e.name, first_line(src, 600), first_line(&normalize_ids(out).replace('\n', ""), 900)),
+                    );
+                    return;
+                }
                 if e.is_token() && out_text.contains(&words[0]) && !in_one_token {
                     s.violation_g(
                         "author-id-dropped",
